@@ -88,7 +88,9 @@ def relaxed_lengths(formulas):
         else:
             r = e
         cache[k] = r
+        keep.append(e)
         return r
+    keep = []
     try:
         out = [walk(f) for f in formulas]
     except Exception:
